@@ -4,6 +4,7 @@ import json, os, sys, subprocess
 V = os.path.dirname(os.path.dirname(os.path.abspath(__file__)))
 sys.path.insert(0, os.path.join(V, "lib"))
 import table
+import props_meta
 props = [json.loads(l) for l in open(os.path.join(V, "properties.jsonl"))]
 hooks_commits = subprocess.run(["git", "-C", "/repo", "log", "--format=%h", "--grep=^verification hook"], capture_output=True, text=True).stdout.split()
 checks, na = [], []
@@ -19,8 +20,8 @@ for p in props:
             "replay_cmd_template": "./check %s --replay {path}" % pid,
             "engine": "cbmc-dfcc",
             "technique": d.get("technique", "contract-based deductive verification: CBMC code contracts (requires/ensures/assigns) enforced per function on the real C code with goto-instrument --dfcc, callees replaced by their proved contracts; SAT back end cadical"),
-            "level_claimed": {"category": d.get("level", "proof"), "text": d.get("level_text", ""), "design_ref": "DESIGN.md section 4, " + pid},
-            "level_note": d.get("level_note", "trusted: platform port model (v_port_model.c), spec functions (v_spec.h), CBMC + SAT solver; see evidence.assumptions"),
+            "level_claimed": {"category": props_meta.META[pid][0], "text": props_meta.META[pid][1], "design_ref": "DESIGN.md section 4, " + pid},
+            "level_note": props_meta.COMMON_NOTE,
         })
     else:
         na.append({"property_id": pid, "reason": table.NOT_CLAIMED.get(pid, "check not built yet")})
